@@ -160,6 +160,41 @@ def scenarios(sh, rng, mk, hid):
             if not inline or kind == '<>':
                 expect(sh, f'ref-tableless-column|delete_column|db.sql|{tag}', TNF, lambda: db.sql, case, hid)
                 expect(sh, f'ref-tableless-column|delete_column|db.dbml|{tag}', TNF, lambda: db.dbml, case, hid)
+    # ---- composite reference with a table-less column that is NOT the first one ---------------
+    for kind in ('>', '<', '-', '<>'):
+        for side in (1, 2):
+            db, case = fresh()
+            t1, t2 = rng.sample(db.tables, 2)
+            v1, v2 = Column('victim1q', 'int'), Column('victim2q', 'int')
+            t1.add_column(v1)
+            t2.add_column(v2)
+            r = db.add(Reference(kind, [t1.columns[0], v1], [t2.columns[0], v2], name='rcompvq'))
+            (t1 if side == 1 else t2).delete_column(v1 if side == 1 else v2)
+            tag = f'{kind}|side{side}'
+            expect(sh, f'ref-tableless-column|composite-later-column|ref.sql|{tag}', TNF, lambda: r.sql, case, hid)
+            expect(sh, f'ref-tableless-column|composite-later-column|ref.dbml|{tag}', TNF, lambda: r.dbml, case, hid)
+            loose = Column('loose2q', 'int')
+            r3 = Reference(kind, [t1.columns[0], loose], [t2.columns[0], t2.columns[1]]) if side == 1 else \
+                Reference(kind, [t1.columns[0], t1.columns[1]], [t2.columns[0], loose])
+            expect(sh, f'ref-tableless-column|composite-never-attached|ref.sql|{tag}', TNF, lambda: r3.sql, case, hid)
+    # ---- a consistent reference that becomes mixed because a column is MOVED to another table -----
+    for kind in ('>', '<', '-', '<>'):
+        for side in (1, 2):
+            db, case = fresh()
+            t1, t2 = rng.sample(db.tables, 2)
+            others = [t for t in db.tables if t is not t1 and t is not t2] or [Table('elsewhereq', columns=[Column('eq', 'int')])]
+            v1, v2 = Column('mover1q', 'int'), Column('mover2q', 'int')
+            t1.add_column(v1)
+            t2.add_column(v2)
+            r = db.add(Reference(kind, [t1.columns[0], v1], [t2.columns[0], v2], name='rmoveq'))
+            # use it while it is consistent (anything the library may want to remember is remembered now)
+            r.table1, r.table2, r.dbml, r.sql, t1.get_refs()
+            mv, src = (v1, t1) if side == 1 else (v2, t2)
+            src.delete_column(mv)
+            others[0].add_column(mv)
+            tag = f'{kind}|side{side}|moved'
+            expect(sh, f'ref-mixed-side|table{side}|{tag}', DBE, (lambda: r.table1) if side == 1 else (lambda: r.table2), case, hid)
+            expect(sh, f'ref-mixed-side|ref.dbml|{tag}', DBE, lambda: r.dbml, case, hid)
     # ---- mixed sides -------------------------------------------------------------------------
     for kind in ('>', '<', '-', '<>'):
         for side in (1, 2):
